@@ -69,7 +69,8 @@ impl Stride {
                 true
             }
             Stride::Striding(stride, count) => {
-                if item == *stride * *count {
+                // `stride * count` may not be representable, in which case `item` cannot match.
+                if stride.checked_mul(*count) == Some(item) {
                     *count += 1;
                     true
                 } else if item == *stride * (*count - 1) {
